@@ -224,6 +224,11 @@ func (r *Run) user(a Action) {
 			r.skipped = true
 			return
 		}
+		if isRevert && r.rollbackWhileBatchReleasePreparing() {
+			r.W.Excluded[FindingRollbackWhilePreparing]++
+			r.skipped = true
+			return
+		}
 		if isRevert && r.exitBeforeBatchRelease() {
 			r.W.Excluded[FindingExitBeforeBatchRelease]++
 			r.skipped = true
@@ -367,6 +372,29 @@ func (r *Run) user(a Action) {
 			r.ulog("delete rollout")
 		}
 	}
+}
+
+// FindingRollbackWhilePreparing: canary-style Deployment; the workload is reverted to the stable
+// template after the BatchRelease was created but before it took the workload over (still
+// Preparing, no control-info annotation), and the release is published again right after. The
+// BatchRelease initialises on the reverted template and creates its canary Deployment from it;
+// after the re-release it never creates one for the new revision: the batch never becomes ready
+// and the rollout livelocks in StepUpgrade. Same family as FindingRevertBeforeObserved (template
+// flipped faster than the controllers observe it).
+const FindingRollbackWhilePreparing = "c07-livelock-rollback-and-rerelease-while-batchrelease-preparing"
+
+// rollbackWhileBatchReleasePreparing: canary style, BatchRelease exists and has not annotated the workload yet.
+func (r *Run) rollbackWhileBatchReleasePreparing() bool {
+	if !KnownOpen[FindingRollbackWhilePreparing] || os.Getenv("VERIF_REPLAY_STRICT") != "" || r.S.Style != "canary" {
+		return false
+	}
+	o := r.workload()
+	br := r.W.BatchRelease(r.S.Namespace, r.S.Name)
+	if o == nil || br == nil || br.DeletionTimestamp != nil {
+		return false
+	}
+	_, controlled := o.GetAnnotations()[util.BatchReleaseControlAnnotation]
+	return !controlled
 }
 
 // FindingRaiseUpgradedStep: the plan is edited so that the CURRENT step asks for more replicas
@@ -542,7 +570,7 @@ func (w *World) supersededBatchReleaseWouldResume(it QItem) bool {
 	return short != canaryRevOf(ro) && short != ro.Status.GetSubStatus().StableRevision && br.Status.UpdateRevision == upd
 }
 
-var KnownOpen = map[string]bool{FindingRaiseUpgradedStep: true, FindingBlueGreenSupersession: true, FindingSupersededResumed: true, FindingRollbackBeforeFirstPod: true, FindingRevertBeforeObserved: true, FindingExitBeforeBatchRelease: true, FindingGatewayDisableCanarySvc: true, FindingPlanEditJumpToSelf: true, FindingReleaseDuringCancel: true, FindingScaleBelowTrafficStep: true}
+var KnownOpen = map[string]bool{FindingRollbackWhilePreparing: true, FindingRaiseUpgradedStep: true, FindingBlueGreenSupersession: true, FindingSupersededResumed: true, FindingRollbackBeforeFirstPod: true, FindingRevertBeforeObserved: true, FindingExitBeforeBatchRelease: true, FindingGatewayDisableCanarySvc: true, FindingPlanEditJumpToSelf: true, FindingReleaseDuringCancel: true, FindingScaleBelowTrafficStep: true}
 
 // scaleBelowTrafficStep: partition style + provider + an integer step with traffic >= n.
 func (r *Run) scaleBelowTrafficStep(n int) bool {
@@ -836,6 +864,16 @@ func (r *Run) LivelockClass() string {
 	}
 	if br := r.W.BatchRelease(r.S.Namespace, r.S.Name); br != nil {
 		cls += "-br-" + strings.ToLower(string(br.Status.Phase)) + "-" + strings.ToLower(string(br.Status.CanaryStatus.CurrentBatchState))
+	}
+	// circumstances: the template was changed more than once (rollback / re-release / supersession)
+	changes := 0
+	for _, l := range r.UserLog {
+		if strings.Contains(l, " release to ") || strings.Contains(l, " rollback to ") {
+			changes++
+		}
+	}
+	if changes >= 2 {
+		cls += "-template-changed-again"
 	}
 	return cls
 }
